@@ -277,9 +277,10 @@ impl<B: StarkField> AirContext<B> {
         let trace_length = self.trace_len();
         let transition_divisior_degree = trace_length - self.num_transition_exemptions();
 
-        // we use the identity: ceil(a/b) = (a + b - 1)/b
+        // a composition polynomial of degree d has d + 1 coefficients, and each column holds
+        // trace_length of them
         let num_constraint_col =
-            (highest_constraint_degree - transition_divisior_degree).div_ceil(trace_length);
+            (highest_constraint_degree - transition_divisior_degree + 1).div_ceil(trace_length);
 
         cmp::max(num_constraint_col, 1)
     }
